@@ -690,9 +690,22 @@ def apps_of(schema):
     return out
 
 
-def wire_schema(schema):
+def builtins_of(schema):
+    """the library constants `to_string(include_introspection=True)` writes, read from the LIVE objects: the definitions of
+    SPECIFIED_DIRECTIVES in the library's order and the introspection types registered in the schema"""
+    from py_gql.schema import SPECIFIED_DIRECTIVES, is_introspection_type
+    from canon_schema import dump_arg, dump_type
+    return {"specified": [{"name": d.name, "locations": list(d.locations), "args": [dump_arg(a) for a in d.arguments],
+                           "desc": d.description} for d in SPECIFIED_DIRECTIVES],
+            "introspection": [dump_type(t, False) for t in schema.types.values() if is_introspection_type(t)]}
+
+
+def wire_schema(schema, builtins=False):
     d = dump_schema(schema, include_builtin=False, sort=False)
-    return {"schema": d, "apps": apps_of(schema)}
+    out = {"schema": d, "apps": apps_of(schema)}
+    if builtins:
+        out["builtins"] = builtins_of(schema)
+    return out
 
 
 def run_model(ctx, histories):
@@ -703,15 +716,14 @@ def run_model(ctx, histories):
     ctx.extra["printer_state_kind(source)"] = kind
     reqs, expect = [], []
     for schemas, hist, outs in histories:
-        if any(o["include_introspection"] for _, o in hist):
-            # introspection types / specified directive definitions are printed from the library's own constants: not modelled
-            hist2 = [(i, o) for (i, o) in hist if not o["include_introspection"]]
-            if len(hist2) != len(hist):
-                continue
-        ws = [wire_schema(s[2]) for s in schemas]
+        intro = any(o["include_introspection"] for _, o in hist)
+        ws = [wire_schema(s[2], builtins=intro) for s in schemas]
+        if intro:
+            ctx.stat("model-history-with-introspection")
         reqs.append({"op": "history", "state": kind, "schemas": ws,
                      "calls": [{"schema": i, "indent": (" " * o["indent"]) if isinstance(o["indent"], int) else o["indent"],
                                 "descriptions": o["include_descriptions"], "custom": bool(o["include_custom_schema_directives"]),
+                                "introspection": bool(o["include_introspection"]),
                                 "whitelist": (list(o["include_custom_schema_directives"])
                                               if isinstance(o["include_custom_schema_directives"], (list, tuple)) else None)}
                                for i, o in hist]})
@@ -736,6 +748,8 @@ def run_model(ctx, histories):
 def run(ctx):
     ctx.extra["printer_state_statement"] = state_statement()
     run_corpus(ctx)
+    from corr import C12_partial
+    C12_partial.run(ctx)                      # custom scalars with PARTIAL number-literal acceptance (deterministic class)
     run_long_descriptions(ctx)
     run_roundtrip(ctx)
     hist = []
@@ -751,6 +765,9 @@ def run(ctx):
 
 def replay(ctx, data):
     inp = data.get("input", {})
+    if inp.get("part") == "C12_partial":
+        from corr import C12_partial
+        return C12_partial.replay(ctx, data)
     if "history" in inp:
         live = rebuild_cases(inp["schemas"])
         schemas = [(None, src, s, False) for src, s in zip(inp["schemas"], live)]
